@@ -52,6 +52,24 @@ def cases(tier, seed):
                    seed=seed * 100003 + i)
 
 
+_orig_cases = cases
+
+
+def cases(tier, seed):      # noqa: F811
+    # two C-MOVE operations served by the same entity at the same time (own requestors, own
+    # message ids, own instances), with line-level pre-emption in the provider: each one's
+    # progress reports and final response must be its own
+    rnd = random.Random('c19d/%d' % seed)
+    for i in range(150 if tier == 'quick' else 6000):
+        k = rnd.choice([1, 2, 3, 4])
+        yield dict(op='move', n=k, outcomes=['success'] * k, pending='none', twice=False,
+                   in_file=False, mid=rnd.choice([1, 255, 4660]), stall=False,
+                   maxlen=rnd.choice([256, 16384]), dest='real', dual=True,
+                   seed=seed * 100109 + i)
+    for c in _orig_cases(tier, seed):
+        yield c
+
+
 def _inst(rnd, k, sop):
     import pydicom
     ds = pydicom.Dataset()
@@ -273,7 +291,15 @@ def _move(case):
         viol.append({'sig': 'C19 %s op=move' % rule,
                      'detail': '%s\ncase %r\nhandler errors %r' % (detail, case,
                                                                    world.handler_errors[:1])})
+    pre = None
     try:
+        if case.get('dual'):
+            from .. import preempt
+            pre = preempt.Preempter(world.sim, prob=0.4, park_prob=0.25, park_max=0.1,
+                                    funcs={'qr_move_scp', '_send_response', 'send', 'encode',
+                                           'set_length', 'storage_scu'},
+                                    files=('sopclass.py',))
+            pre.install()
         # destination unknown to the application: it answers like the library's default
         # on_receive_move (no remote AE, zero operations, empty iterator)
         unknown = case.get('dest') == 'unknown'
@@ -291,6 +317,8 @@ def _move(case):
                 while j < len(data) and (48 <= data[j] <= 57 or data[j] == 46):
                     j += 1
                 stored.append(data[i:j].decode())
+                if case.get('dual'):
+                    return 0
                 return OUT[case['outcomes'][len(stored) - 1]] if len(stored) <= n else 0
 
         def store_mem(asce, ctx, msg):
@@ -351,9 +379,16 @@ def _move(case):
         world.serve_peer(('otherhost', 4007), lambda sock: (other_hits.append(1),
                                                              peers.ScriptedAcceptor(world.sim, sock))[1])
 
+        rival_insts = [_inst(rnd, 70 + k_, CT) for k_ in range(rnd.randint(1, 3))] \
+            if case.get('dual') else []
+        rival_uids = set(str(d_.SOPInstanceUID) for d_ in rival_insts)
+
         class Srv(applicationentity.AE):
             def on_receive_move(self, context, ds, destination):
                 moves.append(str(destination))
+                if str(getattr(ds, 'PatientName', '')) == 'RIVAL':
+                    return ({'aet': 'DEST', 'address': DEST[0], 'port': DEST[1]},
+                            len(rival_insts), iter(list(rival_insts)))
                 if unknown:
                     return applicationentity.AE.on_receive_move(self, context, ds, destination)
 
@@ -402,10 +437,57 @@ def _move(case):
                                        tuple((i, MOVE, (rc.IMPLICIT_LE,)) for i in (1, 3, 5)),
                                        script=script)
         world.spawn(peer.run, 'scu', role='user')
+        rival = {'rsps': []}
+        if case.get('dual'):
+            mid2 = case['mid'] + 7
+
+            def script2(p2):
+                a2 = p2.associate()
+                if not isinstance(a2, dict) or a2['kind'] != 'A-ASSOCIATE-AC':
+                    return
+                q2 = pydicom.Dataset()
+                q2.PatientName = 'RIVAL'
+                p2.send_message(1, {0x0002: MOVE, 0x0100: 0x0021, 0x0110: mid2, 0x0700: 0,
+                                    0x0800: 1, 0x0600: 'DEST'}, enc(q2, rc.IMPLICIT_LE))
+                while True:
+                    m2 = p2.read_message(timeout=200.0)
+                    if not isinstance(m2, dict) or 'fields' not in m2:
+                        break
+                    rival['rsps'].append(m2)
+                    if m2['fields'].get(0x0900) not in (0xFF00, 0xFF01):
+                        break
+                if not p2.eof and not p2.reset:
+                    try:
+                        p2.release()
+                    except OSError:
+                        pass
+            rival['mid'] = mid2
+            peer2 = peers.ScriptedRequestor(world.sim, world.net, ADDR,
+                                            ((1, MOVE, (rc.IMPLICIT_LE,)),), script=script2)
+            world.spawn(peer2.run, 'scu2', role='user')
         if case['stall']:
             _stall(world, rnd)
-        world.run(tmax=1500)
-        world.drain(3.0)
+        try:
+            world.run(tmax=1500)
+            world.drain(3.0)
+        finally:
+            if pre is not None:
+                pre.uninstall()
+                pre = None
+        if case.get('dual'):
+            # the store log mixes both operations: look at ours
+            stored[:] = [u_ for u_ in stored if u_ not in rival_uids]
+            wrong = [m_['fields'].get(0x0120) for m_ in rival['rsps']
+                     if m_['fields'].get(0x0120) != rival['mid']]
+            if wrong:
+                v('response-not-correlated concurrent-move',
+                  'the other requestor (message id %d) got responses for %r' % (
+                      rival['mid'], wrong[:4]))
+            fin2 = [m_ for m_ in rival['rsps'] if m_['fields'].get(0x0900) not in (0xFF00, 0xFF01)]
+            if len(fin2) != 1:
+                v('not-exactly-one-final-response concurrent-move',
+                  'the other requestor got %d final responses and %d responses in all' % (
+                      len(fin2), len(rival['rsps'])))
         if 'noassoc' in out:
             return {'harness_error': 'association not accepted %r' % (out['noassoc'],),
                     'violations': []}
@@ -481,4 +563,6 @@ def _move(case):
               world.handler_errors[0][-500:])
         return _fin(world, viol, case, {'pending': len(pend), 'final': len(final)})
     finally:
+        if pre is not None:
+            pre.uninstall()
         world.close()
